@@ -186,6 +186,10 @@ pub enum GoalKind {
     OnlyDistance,
     OnlyValue,
     OnlyCost,
+    /// ONE layer which sums additive objectives (FeatureCombinator): tours + distance
+    SumToursDistance,
+    /// unassigned + tours + distance in one layer
+    SumUnassignedToursDistance,
 }
 
 pub fn build_goal(kind: GoalKind, transport: Arc<dyn TransportCost>) -> GoalContext {
@@ -222,6 +226,22 @@ pub fn build_goal(kind: GoalKind, transport: Arc<dyn TransportCost>) -> GoalCont
         GoalKind::OnlyDistance => vec![tb("min-distance").build_minimize_distance().unwrap(), capacity],
         GoalKind::OnlyValue => vec![value(), tb("schedule").build_schedule_updater().unwrap(), capacity],
         GoalKind::OnlyCost => vec![tb("min-cost").build_minimize_cost().unwrap(), capacity],
+        GoalKind::SumToursDistance => vec![
+            vrp_core::construction::enablers::FeatureCombinator::default()
+                .use_name("tours-and-distance")
+                .add_features(&[tours, tb("min-distance").build_minimize_distance().unwrap()])
+                .combine()
+                .unwrap(),
+            capacity,
+        ],
+        GoalKind::SumUnassignedToursDistance => vec![
+            vrp_core::construction::enablers::FeatureCombinator::default()
+                .use_name("unassigned-tours-distance")
+                .add_features(&[unassigned, tours, tb("min-distance").build_minimize_distance().unwrap()])
+                .combine()
+                .unwrap(),
+            capacity,
+        ],
     };
     GoalContextBuilder::with_features(&features).unwrap().build().unwrap()
 }
